@@ -6,6 +6,7 @@ import (
 	storageerrors "github.com/formancehq/ledger/internal/storage/sqlutils"
 
 	ledger "github.com/formancehq/ledger/internal"
+	"github.com/formancehq/ledger/internal/verifhook"
 	"github.com/formancehq/stack/libs/go-libs/logging"
 )
 
@@ -21,10 +22,12 @@ func (e *executionContext) AppendLog(ctx context.Context, log *ledger.Log) (*led
 		return log.ChainLog(nil), ret, nil
 	}
 
+	verifhook.Yield(ctx, "chain")
 	chainedLog := e.commander.chainLog(log)
 	logging.FromContext(ctx).WithFields(map[string]any{
 		"id": chainedLog.ID,
 	}).Debugf("Appending log")
+	verifhook.Yield(ctx, "handoff")
 	done := make(chan struct{})
 	e.commander.Append(chainedLog, func() {
 		close(done)
@@ -34,11 +37,13 @@ func (e *executionContext) AppendLog(ctx context.Context, log *ledger.Log) (*led
 
 func (e *executionContext) run(ctx context.Context, executor func(e *executionContext) (*ledger.ChainedLog, chan struct{}, error)) (*ledger.ChainedLog, error) {
 	if ik := e.parameters.IdempotencyKey; ik != "" {
+		verifhook.Yield(ctx, "ik-take")
 		if err := e.commander.referencer.take(referenceIks, ik); err != nil {
 			return nil, err
 		}
 		defer e.commander.referencer.release(referenceIks, ik)
 
+		verifhook.Yield(ctx, "ik-lookup")
 		chainedLog, err := e.commander.store.ReadLogWithIdempotencyKey(ctx, ik)
 		if err == nil {
 			return chainedLog, nil
@@ -51,7 +56,9 @@ func (e *executionContext) run(ctx context.Context, executor func(e *executionCo
 	if err != nil {
 		return nil, err
 	}
+	verifhook.Yield(ctx, "wait")
 	<-done
+	verifhook.Yield(ctx, "done")
 	logger := logging.FromContext(ctx).WithFields(map[string]any{
 		"id": chainedLog.ID,
 	})
